@@ -11,6 +11,7 @@
 #include <core/sync.h>
 
 #include <core/core.h>
+#include <verif/hooks.h>
 
 /**
  * @brief Synchronizes threads on a barrier
@@ -27,17 +28,22 @@ bool sync_thread_barrier(void)
 
 	if(phase & 2U) {
 		l = atomic_fetch_add_explicit(c, -1, memory_order_acq_rel) == 1;
+		VERIF_POINT(VP_BAR_ARRIVE, phase & 1U, l, phase, 0);
 		do {
+			VERIF_YIELD(2);
 			r = atomic_load_explicit(c, memory_order_relaxed);
 		} while(r);
 	} else {
 		l = !atomic_fetch_add_explicit(c, 1, memory_order_acq_rel);
 		rid_t thr_cnt = global_config.n_threads;
+		VERIF_POINT(VP_BAR_ARRIVE, phase & 1U, l, phase, 0);
 		do {
+			VERIF_YIELD(3);
 			r = atomic_load_explicit(c, memory_order_relaxed);
 		} while(r != thr_cnt);
 	}
 
 	phase = (phase + 1) & 3U;
+	VERIF_POINT(VP_BAR_LEAVE, l, phase, 0, 0);
 	return l;
 }
